@@ -605,6 +605,15 @@ pub fn run(opts: &Opts) {
 		deep = if i % 2 == 0 { G::Arr(vec![deep], (i % 5) as u8) } else { G::Obj(vec![("k".into(), false, deep)], (i % 4) as u8) };
 	}
 	values.push(deep);
+	// around serde_json's default recursion limit of 128 (the reader behind std.parseJson): every depth the
+	// default stack limit lets the manifester emit must be read back
+	for n in [100usize, 126, 127, 128, 129, 150, 190] {
+		let mut deep = G::Num(1.0);
+		for i in 0..n {
+			deep = if i % 3 != 1 { G::Arr(vec![deep], 0) } else { G::Obj(vec![("k".into(), false, deep)], 0) };
+		}
+		values.push(deep);
+	}
 	values.push(G::Arr((0..1500).map(|i| G::Num(i as f64)).collect(), 3));
 	values.push(G::Obj((0..300).map(|i| (format!("k{}", (i * 7919) % 1000), (i % 9 == 0, G::Num(i as f64)))).collect::<BTreeMap<_, _>>().into_iter().map(|(k, (h, v))| (k, h, v)).rev().collect(), 3));
 	for i in 0..n_vals {
@@ -688,13 +697,19 @@ pub fn run(opts: &Opts) {
 				json!({"op":"json.read","via":p.name,"text":hex(text.as_bytes()),"v":gj,"size":sz}),
 				json!({"observed": true}),
 			);
-			let sj = serde_json::from_str::<Value>(&text).map_or(false, |x| same_serde(&x, g));
+			// the independent reader has its recursion limit switched off (feature unbounded_depth)
+			let sj = {
+				use serde::Deserialize;
+				let mut de = serde_json::Deserializer::from_str(&text);
+				de.disable_recursion_limit();
+				Value::deserialize(&mut de).ok().filter(|_| de.end().is_ok()).map_or(false, |x| same_serde(&x, g))
+			};
 			let pj = match guarded(|| env.parse_json.call(text.clone())) {
 				Ok(Ok(back)) => guarded(|| same_val(&back, g)).unwrap_or(false),
 				_ => false,
 			};
 			w.case(
-				json!({"op":"json.indep","what":"emitted text read by serde_json / std.parseJson equals the source value (text and value: see the json.read case on line `case`)","via":p.name,"case":case_no,"_text":text.chars().take(300).collect::<String>(),"expect":{"serde":true,"parse":true},"size":sz}),
+				json!({"op":"json.indep","what":"emitted text read by serde_json / std.parseJson equals the source value (text and value: see the json.read case on line `case`)","via":p.name,"case":case_no,"_text":text.chars().take(300).collect::<String>(),"depth":g.depth(),"expect":{"serde":true,"parse":true},"size":sz}),
 				json!({"serde": sj, "parse": pj}),
 			);
 		}
